@@ -13,8 +13,10 @@ import (
 	"github.com/NethermindEth/juno/clients/feeder"
 	"github.com/NethermindEth/juno/core/felt"
 	"github.com/NethermindEth/juno/core/pending"
+	"github.com/NethermindEth/juno/db/memory"
 	"github.com/NethermindEth/juno/jsonrpc"
 	"github.com/NethermindEth/juno/rpc"
+	"github.com/NethermindEth/juno/rpc/rpccore"
 	rpcv10 "github.com/NethermindEth/juno/rpc/v10"
 	rpcv8 "github.com/NethermindEth/juno/rpc/v8"
 	rpcv9 "github.com/NethermindEth/juno/rpc/v9"
@@ -34,25 +36,43 @@ var versions = []string{"v8", "v9", "v10"}
 // pre_confirmed data. The VM is nil: no method that executes transactions is ever called.
 type rpcNode struct {
 	bc       *blockchain.Blockchain
+	kv       *memory.Database // the node's database (read directly for the store-level comparison)
 	newState bool
 	servers  map[string]*jsonrpc.Server
 	reqID    int
 
 	syncReader *preConfReader
 	feeder     *stubFeeder
+	handler    *rpc.Handler              // to switch the feeder client off and on again
+	submitted  *rpccore.TransactionCache // the submitted-transactions cache of the three handlers
 }
 
-// stubFeeder is the feeder gateway of a node that is in sync with the network: it knows no
-// transaction the node does not have. (node.go always configures a feeder client, so the
-// production path of getTransactionStatus for an unknown hash goes through it.) Every other method
-// of the interface is nil: the read methods under test must not call them.
+// stubFeeder is the feeder gateway. By default that of a node in sync with the network: it knows no
+// transaction the node does not have (NOT_RECEIVED). (node.go always configures a feeder client, so
+// the production path of getTransactionStatus for an unknown hash goes through it.) A query of the
+// feeder family makes it answer something else for one call (see setFeeder). Every other method of
+// the interface is nil: the read methods under test must not call them.
 type stubFeeder struct {
 	feeder.Reader
 	calls int
+	fail  bool
+	next  *starknet.TransactionStatus
 }
+
+const (
+	stubRevertReason  = "feeder-says-reverted"
+	stubFailureCode   = "FEEDER_CODE"
+	stubFailureReason = "feeder-says-rejected"
+)
 
 func (f *stubFeeder) TransactionStatus(_ context.Context, _ *felt.Felt) (starknet.TransactionStatus, error) {
 	f.calls++
+	if f.fail {
+		return starknet.TransactionStatus{}, fmt.Errorf("feeder gateway unreachable")
+	}
+	if f.next != nil {
+		return *f.next, nil
+	}
 	return starknet.TransactionStatus{FinalityStatus: starknet.NotReceived}, nil
 }
 
@@ -71,12 +91,13 @@ func (p *preConfReader) PreConfirmedChain() (preconfirmed.ChainReader, error) {
 	return p.chain()
 }
 
-func newRPCNode(bc *blockchain.Blockchain, newState bool) (*rpcNode, error) {
+func newRPCNode(bc *blockchain.Blockchain, kv *memory.Database, newState bool) (*rpcNode, error) {
 	logger := log.NewNopZapLogger()
 	sr := &preConfReader{}
 	fd := &stubFeeder{}
-	h := rpc.New(bc, sr, nil, "verif", logger, bc.Network()).WithFeeder(fd)
-	n := &rpcNode{bc: bc, newState: newState, servers: map[string]*jsonrpc.Server{}, syncReader: sr, feeder: fd}
+	cache := rpccore.NewTransactionCache(10000*time.Hour, 16) // never expires within a run (no wall-clock dependence)
+	h := rpc.New(bc, sr, nil, "verif", logger, bc.Network()).WithFeeder(fd).WithSubmittedTransactionsCache(cache)
+	n := &rpcNode{bc: bc, kv: kv, newState: newState, servers: map[string]*jsonrpc.Server{}, syncReader: sr, feeder: fd, handler: h, submitted: cache}
 	type tbl struct {
 		name    string
 		methods []jsonrpc.Method
@@ -131,7 +152,7 @@ func (n *rpcNode) call(version, method string, params any) rpcResp {
 	var herr error
 	var perr error
 	var panicked bool
-	done := lib.WithDeadline(30*time.Second, func() {
+	done := lib.WithDeadline(10*time.Minute, func() { // generous: a loaded machine can stall a call for a long time; a real hang is still found
 		perr, panicked, _ = lib.Try(func() error {
 			out, _, herr = n.servers[version].HandleReader(context.Background(), bytes.NewReader(body))
 			return nil
